@@ -128,4 +128,50 @@ theorem z1dRun_range' (L R o : Nat) (ho : o ≤ 1) (hL : 0 < L) (hR : 0 < R) (n 
     simp only [List.range'_succ, z1dRun, List.map_cons]
     rw [ih (a + 1) _ hinv, hv]
 
+/-! ### the `@cache` of `project`: memo of the first answer per index, never evicted -/
+
+/-- after a call `project(i)` the memo holds the answer just given -/
+theorem z1dStep_lookup (L R o : Nat) (s : Z1dState) (i : Nat) :
+    (z1dStep L R o s i).1.cache.lookup i = some (z1dStep L R o s i).2 := by
+  unfold z1dStep
+  cases h : s.cache.lookup i with
+  | some v => simp [h]
+  | none =>
+    dsimp only
+    split_ifs <;> simp [List.lookup_cons_self]
+
+theorem z1dStep_hit (L R o : Nat) (s : Z1dState) (i : Nat) (v : Int) (h : s.cache.lookup i = some v) :
+    z1dStep L R o s i = (s, v) := by
+  unfold z1dStep; rw [h]
+
+/-- a memoised answer survives every later call -/
+theorem z1dStep_preserves (L R o : Nat) (s : Z1dState) (i j : Nat) (v : Int) (h : s.cache.lookup i = some v) :
+    (z1dStep L R o s j).1.cache.lookup i = some v := by
+  unfold z1dStep
+  cases hj : s.cache.lookup j with
+  | some w => simpa [hj] using h
+  | none =>
+    have hne : (i == j) = false := by
+      by_cases e : i = j
+      · subst e; rw [h] at hj; cases hj
+      · simpa using e
+    dsimp only
+    split_ifs <;> simp [List.lookup_cons, hne, h]
+
+theorem z1dRun_preserves (L R o : Nat) (i : Nat) (v : Int) : ∀ (hist : List Nat) (s : Z1dState),
+    s.cache.lookup i = some v → (z1dRun L R o s hist).1.cache.lookup i = some v := by
+  intro hist
+  induction hist with
+  | nil => intro s h; exact h
+  | cons j t ih =>
+    intro s h
+    simp only [z1dRun]
+    exact ih _ (z1dStep_preserves L R o s i j v h)
+
+/-- a repeated ask returns the first answer, whatever was asked in between (any state, any history) -/
+theorem z1d_memo_stable' (L R o : Nat) (s : Z1dState) (i : Nat) (hist : List Nat) :
+    (z1dStep L R o (z1dRun L R o (z1dStep L R o s i).1 hist).1 i).2 = (z1dStep L R o s i).2 := by
+  have h := z1dRun_preserves L R o i _ hist _ (z1dStep_lookup L R o s i)
+  rw [z1dStep_hit L R o _ i _ h]
+
 end Rpylib.Pairing
